@@ -9,10 +9,10 @@ PROP = "C13"
 HARNESS = "harness/c13_local.c"
 RULE = ("the real qmail-local.c main() (ASan+UBSan build of the working tree, run in-process in real temporary home directories; "
         "open_read/open_append/stat/chdir/execv/qmail.o/strerr_die interposed only to observe or to script failures) against the Lean model "
-        "Nq.Local.run on: every subset of 7 (dash '-') and 5 (dash '') .qmail names x 43 near-miss extensions (case, dots, slashes, "
+        "Nq.Local.run on: every subset of 7 (dash '-') and 5 (dash '') .qmail names x 46 near-miss extensions (case, dots, slashes, "
         "trailing/double dashes, 'default' spellings) with -n; every sequence of up to %s instruction lines from a 20-line grammar set, plain "
         "and with the x bit, with -n; real deliveries with stand-in commands for all 256 exit codes in two shapes and every sequence of up to %s "
-        "lines from a 16-line delivery set (mbox, maildir, missing maildir, exit 0/99/100/111/1, kill -9, forwards, +list); 16 home modes x 18 "
+        "lines from a 16-line delivery set (mbox, maildir, missing maildir, exit 0/99/100/111/1, kill -9, forwards, +list); 16 home modes x 20 "
         "file modes x {-n, deliver}; 16 message shapes (own Delivered-To in header/body/unterminated/case-changed/NUL) x 4 recipients x 9 "
         "hosts; 22 hostile senders x owner/VERP files; %s seeded random homes/extensions/bodies/messages (incl. EIO/EACCES, directories, "
         "NUL bytes, names around NAME_MAX). Compared on exit code, stdout, diagnostic, names opened (in order), delivery events (in order), "
@@ -86,9 +86,13 @@ def mutate_blob(rnd, doit, blob):
 
 
 def main():
+    import time
     c = Check(PROP)
+    t0 = time.time()
     ok = c.proofs("Nq.Props.C13", drivers=["drv_c13"])
+    t1 = time.time()
     s = c.build_repo()
+    t2 = time.time()
     stats, samples, disagree, oracle, errors = {}, [], [], [], []
     neighbourhood = None
     level, nrandom = (3, 30000) if c.tier == "quick" else (4, 400000)
@@ -104,8 +108,11 @@ def main():
                 if os.path.exists(corpus):
                     cmds.append("%s - < %s" % (h, corpus))
                 cmds += ["%s %d %d %d %d %d" % (h, level, nrandom, c.seed, i, NCPU) for i in range(NCPU)]
+            t3 = time.time()
             outs = run_pipeline(cmds, drv)
             stats, samples, disagree, oracle, errors = parse_driver_output(outs)
+            c.cov["phase_s"] = {"translator+lake+audit": round(t1 - t0, 1), "scratch_build": round(t2 - t1, 1),
+                                "harness_compile": round(t3 - t2, 1), "run": round(time.time() - t3, 1)}
 
             def neighbourhood(dis):
                 rnd = random.Random(c.seed)
@@ -126,6 +133,18 @@ def main():
             errors.append(str(ex))
     else:
         errors.append("build failed: " + "\n".join(c.notes)[-3000:])
+    # home directories of harness processes that died (sanitizer abort on a mutant) are not left behind
+    import glob, shutil
+    for d in glob.glob("/tmp/c13h-*"):
+        pid = d.rsplit("-", 1)[1]
+        if pid.isdigit() and not os.path.exists("/proc/" + pid):
+            try:
+                for root, dirs, _ in os.walk(d):
+                    for x in dirs:
+                        os.chmod(os.path.join(root, x), 0o700)
+            except OSError:
+                pass
+            shutil.rmtree(d, ignore_errors=True)
     c.cov["evaluations"] = int(stats.get("cases", 0))
     c.cov["distinct_nontrivial"] = int(stats.get("distinct_nontrivial", 0))
     c.cov["traces_validated_against_impl"] = max(0, int(stats.get("cases", 0)) - int(stats.get("disagree", 0)))
